@@ -14,15 +14,18 @@ META = dict(
          "HTTP/1.1 'Connection: close', HTTP/1.0, HTTP/1.0 'Connection: keep-alive'; persistent variants send a second request "
          "afterwards. Before each of H service calls (H = 10 quick / 12 thorough) the environment chooses: K sends its next "
          "fragment (default while fragments remain) / nothing / clock +0.4T / +0.6T / +T; every non-default choice is one "
-         "deviation; all schedules with <= 4 deviations (quick) / <= 5 (thorough). An execution ends early once K was removed, "
+         "deviation; all schedules with <= 4 deviations (quick) / <= 5 (thorough). In 8 further slow-reader "
+         "configurations (Valet, non-persistent variants only) K reads slowly: every send of the server to K is accepted only "
+         "in part (half of the bytes offered), so each service pass ends in a partial send and the response takes longer than T while "
+         "bytes keep moving (<= 3 / <= 4 deviations). An execution ends early once K was removed, "
          "or once K is persistent and quiescent (then the clock is advanced 3T and the server serviced twice more). "
          "Observed: every closeConnection the server performs from its serviceConnects timeout sweep on a connection that was "
          "not cut off (= closed for idleness). Required: such a close happens only if no byte was sent or received on that "
          "connection for >= T (idle clock starts at accept), never after the complete head of a persistent request had been "
          "received in an earlier service call; serviceAll never raises.",
     note="Only the 'only if' direction of the statement is judged (an idle connection that is kept is not a violation; drops "
-         "that do happen are counted in the outcomes). Sends are accepted whole by the doubles; partial sends, connection loss "
-         "and handshake faults are C24-C26. Time advances only between service calls, in multiples of 0.2T (exact in floats).",
+         "that do happen are counted in the outcomes). Outside the slow-reader configurations sends are accepted whole; blocked sends, "
+         "connection loss and handshake faults are C24-C26. Time advances only between service calls, in multiples of 0.2T (exact in floats).",
 )
 import sys
 
@@ -90,6 +93,23 @@ def build(server, scheme, fn, ck):
     return srv
 
 
+class SlowReaderPolicy:
+    """ChooserPolicy, except that every send of the sockets in `.slow` (server side of a connection whose
+    client reads slowly) accepts only half of the bytes offered (at least one): each service pass of the
+    server ends in a partial send, bytes still move on the wire.  Not a choice point."""
+
+    def __init__(self, chooser):
+        self.inner = net.ChooserPolicy(chooser)
+        self.slow = set()
+
+    def decide(self, sock, op, cands):
+        if op == "send" and sock.ident in self.slow and cands[0][0] == "n":
+            n = cands[0][1]
+            a = ("n", max(1, n // 2))
+            return cands.index(a) if a in cands else 0
+        return self.inner.decide(sock, op, cands)
+
+
 class Conn:
     def __init__(self, name, sock):
         self.name = name
@@ -101,10 +121,11 @@ class Conn:
         self.removed = False
 
 
-def execute(ch, server, scheme, variant, kind, H, part, states):
+def execute(ch, server, scheme, variant, kind, slow, H, part, states):
     """One execution -> (list of (kind, what), schedule tokens)"""
     FSM = hh.setup()
-    fn = net.FakeNet(chooser=ch)
+    policy = SlowReaderPolicy(ch)
+    fn = net.FakeNet(policy=policy)
     FSM.net = fn
     ck = net.clock()
     srv = build(server, scheme, fn, ck)
@@ -116,6 +137,9 @@ def execute(ch, server, scheme, variant, kind, H, part, states):
             raise core.BrokenCheck("fake connect failed")
         conns.append(Conn(name, s))
     neighbour, k = conns
+    if slow:                 # K reads slowly: the server's sends to K are accepted in part only
+        k.sock.peer.menu = net.Menu(send_partial=True)
+        policy.slow.add(k.sock.peer.ident)
     closes = []          # (ca, caller, cutoff, clock)
     orig_close = srv.closeConnection
 
@@ -172,7 +196,7 @@ def execute(ch, server, scheme, variant, kind, H, part, states):
             if c is k and c.persisted_at is None and variant in PERSISTENT and m[1] >= headlen:
                 c.persisted_at = now
         ix = srv.servant.ixes.get(k.ca)
-        st = (server, scheme, variant, kind, len(sched), k.removed, neighbour.removed, k.persisted_at is not None,
+        st = (server, scheme, variant, kind, slow, len(sched), k.removed, neighbour.removed, k.persisted_at is not None,
               None if ix is None else (round(ix.timer.remaining, 3), ix.timeout, len(ix.txes), len(ix.rxbs)))
         states.add(hash(st))
         return not viol
@@ -214,16 +238,17 @@ def execute(ch, server, scheme, variant, kind, H, part, states):
 
 
 def work(cfg):
-    idx, server, scheme, variant, kind = cfg
+    idx, server, scheme, variant, kind, slow = cfg
     hh.setup()
     tier = TIERS[core.TIER]
+    bound = tier["bound"] - 1 if slow else tier["bound"]
     p = core.Part()
     states = set()
     best = {}
 
     def run(ch):
         with core.watchdog(30):
-            viol, sched = execute(ch, server, scheme, variant, kind, tier["H"], p, states)
+            viol, sched = execute(ch, server, scheme, variant, kind, slow, tier["H"], p, states)
         p.traces += 1
         p.evaluations += 1
         for kindv, what in viol:
@@ -232,22 +257,24 @@ def work(cfg):
             if group not in best or rank < best[group][0]:
                 best[group] = (rank, (
                     group,
-                    "%s /%s schedule=%s" % (variant, kind, ",".join(sched)),
-                    "%s over %s, timeout %g s, request %s /%s in fragments, schedule [%s]: %s"
-                    % (server, "TLS" if scheme == "https" else "plain TCP", T, variant, kind, ", ".join(sched), what),
-                    dict(server=server, scheme=scheme, timeout=T, variant=variant, app=kind,
+                    "%s /%s%s schedule=%s" % (variant, kind, " slow-reader" if slow else "", ",".join(sched)),
+                    "%s over %s, timeout %g s, request %s /%s in fragments%s, schedule [%s]: %s"
+                    % (server, "TLS" if scheme == "https" else "plain TCP", T, variant, kind,
+                       ", client reads slowly (every server send is accepted in part: half of the bytes offered)" if slow else "",
+                       ", ".join(sched), what),
+                    dict(server=server, scheme=scheme, timeout=T, variant=variant, app=kind, slow_reader=slow,
                          fragments=fragments(variant, kind)[0], schedule=sched, choices=ch.choices, what=what,
                          how="%s(ha=('',8080), timeout=10.0, store=clock[, scheme='https', context=...]) over mc.net doubles; "
                              "connect two raw client sockets N and K; per schedule item: 'send' = K sends its next fragment, "
                              "'+xT' = clock.advance(x*10), then server.serviceAll()" % server)))
         return None
 
-    st = core.dfs(run, bound=tier["bound"])
+    st = core.dfs(run, bound=bound)
     for h in states:
         p.keys.add(h.to_bytes(8, "little", signed=True))
     p.notes["dfs executions"] += st["executions"]
     if idx == 0:
-        p.sample(dict(server=server, scheme=scheme, variant=variant, app=kind, executions=st["executions"],
+        p.sample(dict(server=server, scheme=scheme, variant=variant, app=kind, slow_reader=slow, executions=st["executions"],
                       max_choice_points=st["max_points"]), limit=1)
     return p, best
 
@@ -258,22 +285,33 @@ def configs():
         for scheme in ("http", "https"):
             for variant in VARIANTS:
                 for kind in (("fixed", "stream", "echo") if server == "Valet" else ("echo",)):
-                    cfgs.append((len(cfgs), server, scheme, variant, kind))
+                    if variant == "ka10" and kind != "echo":
+                        continue          # HTTP/1.0 keep-alive differs from ka11 only in the head: echo covers it
+                    cfgs.append((len(cfgs), server, scheme, variant, kind, False))
+    # slow reader: non-persistent exchanges whose response needs many partial sends
+    # (Valet only: Porter removes a non-persistent connection in the pass that queued the response)
+    for scheme in ("http", "https"):
+        for variant in ("close11", "http10"):
+            for kind in ("fixed", "stream"):
+                cfgs.append((len(cfgs), "Valet", scheme, variant, kind, True))
     return cfgs
 
 
 def run():
     ck = core.Check("C28", META["level"], META["technique"])
     cfgs = configs()
-    order = sorted(range(len(cfgs)), key=lambda i: (cfgs[i][3] not in PERSISTENT, cfgs[i][4] != "echo", i))
+    order = sorted(range(len(cfgs)), key=lambda i: (cfgs[i][5], cfgs[i][3] not in PERSISTENT, cfgs[i][4] != "echo", i))
     hh.merge_best(ck, core.pmap(work, [cfgs[i] for i in order]))
     ck.part.states = len(ck.part.keys)
     tier = TIERS[core.TIER]
     ck.coverage_extra = dict(horizon=tier["H"], deviation_bound=tier["bound"], timeout=T, configurations=len(cfgs),
                              servers=["Valet", "Porter"], transports=["plain", "TLS double"], variants=list(VARIANTS),
-                             apps=["fixed", "stream", "echo"])
+                             apps=["fixed", "stream", "echo"], slow_reader_configurations=sum(1 for c in cfgs if c[5]),
+                             slow_reader_deviation_bound=tier["bound"] - 1)
     ck.assumptions = [
-        "socket and TLS doubles (mc/net.py) instead of real sockets; TLS handshakes succeed at once, sends are accepted whole",
+        "socket and TLS doubles (mc/net.py) instead of real sockets; TLS handshakes succeed at once, sends are accepted whole "
+        "except in the slow-reader configurations, where every send to K is accepted in part (half of the bytes offered, at "
+        "least one) - accepted bytes count as bytes sent",
         "'closed for idleness' is observed as closeConnection called from the server's serviceConnects sweep on a connection "
         "whose .cutoff is False; closes by serviceReps / serviceStewards (non-persistent exchange finished) and of cut-off "
         "connections are other mechanisms and are not judged",
@@ -288,7 +326,8 @@ def run():
     return ck.finish(
         rule="{Valet x {fixed, stream, echo}, Porter} x {plain, TLS} x {HTTP/1.1 keep-alive, HTTP/1.1 close, HTTP/1.0, HTTP/1.0 "
              "keep-alive}: every schedule of <= %d steps with <= %d deviations among {send next fragment, nothing, +0.4T, +0.6T, "
-             "+T}" % (tier["H"], tier["bound"]),
+             "+T}; plus slow-reader configurations (non-persistent variants, every server send to K partial) with one deviation "
+             "less" % (tier["H"], tier["bound"]),
         exhaustive=False,
         explanation="exhaustive within the horizon and deviation bound")
 
